@@ -1702,6 +1702,9 @@ def generate_many(engine, initial, producer, selector=None, decycle=False,
         else:
             yield selector(item)
         produced = producer(item)
+        if not isinstance(produced, utils.IterableType):
+            raise TypeError(
+                'generateMany producer must return a collection')
         if depth_first:
             len_before = len(queue)
             queue.extend(produced)
